@@ -129,6 +129,18 @@ Theorem C11_fold_of_loaded_tree_partial : forall t0 ops p n,
 Proof. exact fold_partial. Qed.
 Print Assumptions C11_fold_of_loaded_tree_partial.
 
+(* the status half needs no criticality: on every loaded tree in which every aggregator has a
+   task or call below it - what the loader guarantees since 3e1e68b for every aggregator but the
+   root of a workflow without any role (C15) - every role reports, after any sequence of updates,
+   the combination of the statuses of all its descendants.  (Before the repair an aggregator
+   whose iterators generated nothing stayed in the tree: finding C11-c, now monitor class 10.) *)
+Theorem C11_status_fold_of_loaded_tree : forall t0 ops p n,
+  no_leafless t0 = true ->
+  get_sub p (run_ops ops (fresh t0)) = Some n ->
+  stat_of n = spec_status (leaf_stats n).
+Proof. exact loaded_status_fold. Qed.
+Print Assumptions C11_status_fold_of_loaded_tree.
+
 (* what every role of every loaded tree reports exactly, after any sequence of updates: the
    combination of its critical descendants' states and of one STANDBY per aggregator without
    counted child below it (this pins C11-a down: nothing else deviates) *)
@@ -269,7 +281,8 @@ Print Assumptions C11_error_not_invented_sequential_schedules.
         updates, the monitor that is evaluated on the implementation's snapshots reports no
         violation class (so a monitor failure is a deviation from these theorems' model) ---- *)
 Theorem C11_monitor_accepts_consistent_runs : forall t ops,
-  Inv false t -> pick_code (snap_codes [] (run_ops ops t)) = 0.
+  Inv false t ->
+  pick_code (snap_top [] (run_ops ops t)) = 0 /\ pick_code (snap_codes [] (run_ops ops t)) = 0.
 Proof. exact monitor_accepts_model. Qed.
 Print Assumptions C11_monitor_accepts_consistent_runs.
 
@@ -287,3 +300,11 @@ Example C11_nonvacuous :
   gquiescent (run_sched_g false wit_s_sched (ginit wit_s_tree wit_s_ups)) = true /\
   gquiescent (run_sched_g state_merge_atomic wit_s_sched (ginit wit_s_tree wit_s_ups)) = true.
 Proof. vm_compute. repeat split; reflexivity. Qed.
+
+(* the class that guards the repaired loader defect: an aggregator below the root with nothing
+   below it is flagged on the loaded tree; a workflow with nothing at all below its root is not *)
+Example C11_code10_guard :
+  pick_code (snap_top [] (Agg STANDBY INACTIVE [Agg STANDBY INACTIVE []; Leaf true STANDBY INACTIVE])) = 10 /\
+  memN 10 (snap_top [] (Agg STANDBY INACTIVE [])) = false /\
+  memN 10 (snap_codes [] (Agg STANDBY INACTIVE [])) = true.
+Proof. exact code10_witness. Qed.
